@@ -1,2 +1,87 @@
+"""Thorough-tier extras: vacuity probes, assumption scan, solver-seed stability.
+(Per-cell obligations and the native stand-ins are switched on by the tier itself.)"""
+import os
+import re
+
+from . import gen, verus, lemmas
+from .props import PROPS
+
+VERIF = os.path.dirname(os.path.dirname(os.path.abspath(__file__)))
+REPO = os.environ.get('VERIF_REPO', '/repo')
+
+EXPECTED_ASSUMPTIONS = {
+    'assume_specification': 2,   # u8::count_ones, char::from(u8)            (Kani-discharged)
+    'external_body': 5,          # the five Modifiers predicates               (Kani-discharged)
+}
+
+
+def lemma_probes(prop):
+    """for every proof fn with a `requires` block in this property's lemma modules: a twin `requires ... ensures false`"""
+    out = []
+    ids = []
+    for name in PROPS[prop].get('lemmas', []):
+        text = open(os.path.join(VERIF, 'lemmas', name + '.rs'), encoding='utf-8').read()
+        modname = re.search(r'pub mod (\w+)', text).group(1)
+        for m in re.finditer(r'(?:pub )?proof fn (\w+)(<[^>]*>)?\(([^)]*)\)\s*\n\s*requires\n(.*?)\n\s*(?:ensures|decreases|\{)', text, re.S):
+            fname, generics, params, req = m.group(1), m.group(2) or '', m.group(3), m.group(4)
+            pid = '%s/vacuity-probe/%s' % (prop, fname)
+            out.append('/*@LEMMA:%s@*/\nproof fn probe_%s%s(%s)\n    requires\n%s\n    ensures\n        false,\n{\n}\n/*@ENDLEMMA@*/' % (pid, fname, generics, params, req))
+            ids.append(pid)
+        if out:
+            uses = '\n'.join(sorted(set(re.findall(r'^use [^;]+;', text, re.M))))
+            out.insert(0, 'pub mod verif_probes_%s {\n%s\nuse crate::%s::*;' % (name, uses, modname))
+            out.append('}')
+    return '\n'.join(out), ids
+
+
 def run(prop, info, gen_path, R, seed, extra_cov, undecided_reasons, mine):
-    pass
+    # ---- 1. vacuity: every precondition must be satisfiable
+    texts = []
+    for name in PROPS[prop].get('lemmas', []) + PROPS[prop].get('support_lemmas', []):
+        t, o = lemmas.load(os.path.join(VERIF, 'lemmas', name + '.rs'), prop)
+        texts.append(t)
+    from . import cells
+    pre = gen.generate(REPO, os.path.join(VERIF, 'contracts'))
+    for g in PROPS[prop].get('cellgens', []):
+        t, o, a = getattr(cells, g)(pre, prop, 'quick', VERIF, ())
+        texts.append(t)
+    ptext, pids = lemma_probes(prop)
+    if ptext:
+        texts.append(ptext)
+    ppath = os.path.join(os.path.dirname(gen_path), 'probes.rs')
+    pinfo = gen.generate(REPO, os.path.join(VERIF, 'contracts'), texts, out_path=ppath, probe=True)
+    pres = verus.run(ppath, pinfo, seed=seed, multiple_errors=5)
+    failed = set(f.oid for f in pres.failures if f.oid)
+    fn_probes = [oid for oid, ob in pinfo.obligations.items() if ob['kind'] == 'probe' and (ob['fn'] in set(x.get('fn') for x in R.values()))]
+    vac = [p for p in fn_probes + pids if p not in failed]
+    tool = [f for f in pres.failures if f.kind == 'tool']
+    extra_cov['vacuity_probes'] = {'generated': len(fn_probes) + len(pids), 'rejected_as_required': len(fn_probes) + len(pids) - len(vac),
+                                   'verified_(vacuous)': vac}
+    if tool:
+        undecided_reasons.append('vacuity probe file could not be processed: ' + tool[0].message[:200])
+    elif vac:
+        undecided_reasons.append('vacuous precondition: `ensures false` verifies for ' + ', '.join(vac))
+
+    # ---- 2. assumptions actually present in the verified file
+    text = info.text
+    scan = {
+        'assume_specification': len(re.findall(r'\bassume_specification\b', text)),
+        'external_body': len(re.findall(r'#\[verifier::external_body\]', text)),
+        'assume(': len(re.findall(r'\bassume\s*\(', text)),
+        'admit(': len(re.findall(r'\badmit\s*\(', text)),
+        'uninterp': len(re.findall(r'\buninterp\b', text)),
+    }
+    extra_cov['assumption_scan'] = scan
+    for k, v in scan.items():
+        if v != EXPECTED_ASSUMPTIONS.get(k, 0):
+            undecided_reasons.append('assumption scan: %d occurrence(s) of `%s` in the verified file, expected %d' % (v, k, EXPECTED_ASSUMPTIONS.get(k, 0)))
+
+    # ---- 3. stability: a second solver seed must give the same verdict
+    res2 = verus.run(gen_path, info, seed=(seed or 0) + 7919, multiple_errors=5)
+    f1 = sorted(set(f.oid or f.message for f in mine))
+    from .check import classify
+    m2, t2, o2 = classify(prop, res2.failures, R, info)
+    f2 = sorted(set(f.oid or f.message for f in m2))
+    extra_cov['second_seed'] = {'seed': (seed or 0) + 7919, 'same_verdict': f1 == f2, 'verified': res2.verified, 'errors': res2.errors, 'wall_s': round(res2.wall_s, 1)}
+    if f1 != f2:
+        undecided_reasons.append('unstable: verdict differs between solver seeds (%s vs %s)' % (f1[:3], f2[:3]))
